@@ -194,9 +194,10 @@ Proof.
 Qed.
 
 Lemma rf_insert_K pers w ks a pers' w' nx' :
-  rf_insert W pers w ks a = Some (pers', w', nx') -> w_from w = aligned a -> K pers a -> K pers' (a + 1).
+  rf_insert W pers w ks a = Some (pers', w', nx') -> w_from w = aligned a ->
+  forall b, K pers b -> a + 1 <= b -> K pers' b.
 Proof.
-  unfold rf_insert. intros H Hf HK.
+  unfold rf_insert. intros H Hf b HK Hb.
   pose proof (aligned_le W Wpos a) as Hle. pose proof (aligned_lt W Wpos a) as Hlt.
   destruct (w_insert W w a ks) as [w2 |] eqn:Ei; [| discriminate].
   destruct (w_insert_props _ _ _ _ Ei) as [Hf' _].
@@ -205,25 +206,25 @@ Proof.
   - apply N.eqb_eq in Eto. intros k pw Hl.
     destruct (N.eq_dec k (aligned a)) as [-> | Hne].
     + split; [apply aligned_mod; auto | lia].
-    + rewrite lookup_mset_ne in Hl by auto. destruct (HK _ _ Hl). split; auto. lia.
-  - intros k pw Hl. destruct (HK _ _ Hl). split; auto. lia.
+    + rewrite lookup_mset_ne in Hl by auto. apply (HK _ _ Hl).
+  - exact HK.
 Qed.
 
-Lemma fill_spec ch : forall k a pers w nx0,
-  J ch pers w a -> K pers a -> a + N.of_nat k <= lenN ch ->
+Lemma fill_spec ch b : forall k a pers w nx0,
+  J ch pers w a -> K pers b -> a + N.of_nat k <= lenN ch -> a + N.of_nat k <= b ->
   exists pers' w', fill W ch (seqN a k) pers w nx0 = Some (pers', w', if Nat.eqb k 0 then nx0 else a + N.of_nat k) /\
-                   J ch pers' w' (a + N.of_nat k) /\ K pers' (a + N.of_nat k).
+                   J ch pers' w' (a + N.of_nat k) /\ K pers' b.
 Proof.
-  induction k as [| k IH]; intros a pers w nx0 HJ HK Hle.
+  induction k as [| k IH]; intros a pers w nx0 HJ HK Hle Hb.
   - simpl. exists pers, w. split; auto. rewrite N.add_0_r. auto.
   - simpl seqN. cbn [fill].
     assert (Ha : a < lenN ch) by lia.
     apply N.ltb_lt in Ha. rewrite Ha. apply N.ltb_lt in Ha.
     destruct (rf_insert_step ch pers w a HJ Ha) as [p' [w' [Hi HJ']]].
-    assert (HK' : K p' (a + 1)) by (apply (rf_insert_K _ _ _ _ _ _ _ Hi); auto; apply HJ).
+    assert (HK' : K p' b) by (apply (rf_insert_K _ _ _ _ _ _ _ Hi); auto; [apply HJ | lia]).
     rewrite Hi.
     replace (N.succ a) with (a + 1) by lia.
-    destruct (IH (a + 1) p' w' (a + 1) HJ' HK') as [p2 [w2 [Hfill HJ2]]]; [lia |].
+    destruct (IH (a + 1) p' w' (a + 1) HJ' HK') as [p2 [w2 [Hfill HJ2]]]; [lia | lia |].
     exists p2, w2. rewrite Hfill.
     replace (a + 1 + N.of_nat k) with (a + N.of_nat (S k)) in * by lia.
     split; auto. f_equal. f_equal.
@@ -311,7 +312,8 @@ Proof.
   rewrite nthN_app_eq in Hins. rewrite Hins. simpl.
   apply rinv_J. simpl. exists w', (lenN (chain s1) + 1). rewrite lenN_app.
   split; [reflexivity | split; [reflexivity | split; [exact HJ2 |]]].
-  apply (rf_insert_K _ _ _ _ _ _ _ Hins); auto. apply HJ.
+  apply (rf_insert_K _ _ _ _ _ _ _ Hins); [apply HJ | | lia].
+  intros k pw Hl. destruct (HK _ _ Hl). split; auto. lia.
 Qed.
 
 (* Revert *)
@@ -358,7 +360,7 @@ Proof.
       rewrite col_filter_ne by lia.
       apply Hlc; [lia |]. rewrite <- nthN_removelast by (unfold block, tx in *; lia). auto.
     + (* the persisted copy of the re-entered window is gone, every other key lies below it *)
-      intros k pw Hlk. destruct (N.eq_dec k (nx - W)) as [-> | Hne].
+      intros k pw Hlk. destruct (N.eq_dec k (nx - W)) as [-> | Hkne].
       * rewrite lookup_mremove_eq in Hlk. discriminate.
       * rewrite lookup_mremove_ne in Hlk by auto. destruct (HK _ _ Hlk). split; auto. lia.
   - apply N.eqb_neq in Eb.
@@ -441,41 +443,39 @@ Lemma restart_init_ok_lemma s w0 nx0 :
   rinv W s -> running s = Ready w0 nx0 -> disk_ok_b W s = true -> inv (do_restart W s false).
 Proof.
   intros Hi Hr0 Hok. unfold inv, do_restart. simpl.
-  destruct (proj1 (rinv_J s) Hi) as [w1 [nx1 [Hr1 [Hnx1 HJ]]]].
+  destruct (proj1 (rinv_J s) Hi) as [w1 [nx1 [Hr1 [Hnx1 [HJ HK]]]]].
   destruct HJ as [Hd _].
   unfold ensure. simpl. unfold init_rf. simpl. unfold disk_ok_b in Hok.
   destruct (chain s) as [| b0 ch0] eqn:Ech.
   - apply rinv_J. simpl. exists (empty_window 0), 0.
-    split; [reflexivity | split; [reflexivity | apply J_empty]].
+    split; [reflexivity | split; [reflexivity | split; [apply J_empty | exact HK]]].
   - rewrite <- Ech in *.
     assert (Hlen : 1 <= lenN (chain s)) by (rewrite Ech; unfold lenN; cbn [length]; lia).
     set (latest := lenN (chain s) - 1) in *.
     (* the rebuild branch, used twice *)
-    assert (Hrebuild : no_stale_persisted_b W s = true ->
+    assert (Hrebuild :
               rinv W (let (p, r) := rebuild W (chain s) (persisted s) latest in
                       Build_state (chain s) p (snapshot s) r [])).
-    { intros Hns. unfold rebuild.
+    { unfold rebuild.
       set (cf := find_cont W (S (N.to_nat (latest / W))) (persisted s) (aligned latest)).
       destruct (find_cont_spec (persisted s) (S (N.to_nat (latest / W))) (aligned latest)
                   (aligned_mod W Wpos latest)) as [Hcm Hcv]. fold cf in Hcm, Hcv.
       assert (Hcle : cf <= lenN (chain s)).
-      { destruct Hcv as [-> | [ws' [pw [Hl ->]]]]; [lia |].
-        unfold no_stale_persisted_b in Hns. rewrite forallb_forall in Hns.
-        specialize (Hns _ (lookup_In _ _ _ Hl)). simpl in Hns. apply N.leb_le in Hns. auto. }
+      { destruct Hcv as [-> | [ws' [pw [Hl ->]]]]; [lia |]. apply (HK _ _ Hl). }
       assert (HJ0 : J (chain s) (persisted s) (empty_window cf) cf).
       { split; [| split].
         - intros ws Hws Hle. apply Hd; auto. lia.
         - simpl. symmetry. apply aligned_idem; auto.
         - intros n Hn. simpl in Hn. lia. }
       rewrite rangeN_seq by (unfold latest; lia).
-      destruct (fill_spec (chain s) (N.to_nat (latest + 1 - cf)) cf (persisted s) (empty_window cf) cf HJ0)
-        as [p' [w' [Hfill HJ']]]; [unfold latest; lia |].
+      destruct (fill_spec (chain s) (lenN (chain s)) (N.to_nat (latest + 1 - cf)) cf (persisted s) (empty_window cf) cf HJ0 HK)
+        as [p' [w' [Hfill HJ']]]; [unfold latest; lia | unfold latest; lia |].
       rewrite Hfill. simpl.
       replace (cf + N.of_nat (N.to_nat (latest + 1 - cf))) with (lenN (chain s)) in * by (unfold latest; lia).
       apply rinv_J. simpl. eexists _, _. split; [reflexivity |]. split; auto.
       destruct (Nat.eqb (N.to_nat (latest + 1 - cf)) 0) eqn:E0; auto.
       apply Nat.eqb_eq in E0. unfold latest in *. lia. }
-    destruct (snapshot s) as [[w nx] |] eqn:Esnap; [| apply Hrebuild; auto].
+    destruct (snapshot s) as [[w nx] |] eqn:Esnap; [| apply Hrebuild].
     destruct (nx =? latest + 1) eqn:E1.
     + (* snapshot caught up: used as it is *)
       simpl in Hok. unfold snap_good_b in Hok.
@@ -483,6 +483,7 @@ Proof.
       apply N.eqb_eq in E1. apply N.eqb_eq in Hok. apply N.leb_le in H1. apply N.leb_le in H0.
       apply covers_b_sound in H. unfold Model.w_to in H0.
       apply rinv_J. simpl. exists w, nx. split; [reflexivity |]. split; [unfold latest in *; lia |].
+      split; [| exact HK].
       replace (lenN (chain s)) with nx by (unfold latest in *; lia).
       split; [| split]; auto.
       * intros ws Hws Hle. apply Hd; auto. unfold latest in *. lia.
@@ -500,14 +501,14 @@ Proof.
           - intros ws Hws Hle. apply Hd; auto. unfold latest in *. lia.
           - symmetry. apply aligned_of_mult; auto. lia. }
         rewrite rangeN_seq by lia.
-        destruct (fill_spec (chain s) (N.to_nat (latest + 1 - nx)) nx (persisted s) w nx HJ0)
-          as [p' [w' [Hfill HJ']]]; [unfold latest; lia |].
+        destruct (fill_spec (chain s) (lenN (chain s)) (N.to_nat (latest + 1 - nx)) nx (persisted s) w nx HJ0 HK)
+          as [p' [w' [Hfill HJ']]]; [unfold latest; lia | unfold latest; lia |].
         rewrite Hfill. simpl.
         replace (nx + N.of_nat (N.to_nat (latest + 1 - nx))) with (lenN (chain s)) in * by (unfold latest; lia).
         apply rinv_J. simpl. eexists _, _. split; [reflexivity |]. split; auto.
         destruct (Nat.eqb (N.to_nat (latest + 1 - nx)) 0) eqn:E0; auto.
         apply Nat.eqb_eq in E0. unfold latest in *. lia.
-      * simpl in Hok. apply Hrebuild; auto.
+      * apply Hrebuild.
 Qed.
 
 (* ---------- queries and forgetting only touch the cache ---------- *)
